@@ -222,9 +222,10 @@ def run_ops(ops, exempt_after_w=True, keep=None):
                     raise RuntimeError("unknown op %r" % (op,))
             except BaseException as e:  # noqa: BLE001
                 out = exc_name(e)
-                if kind in ("open", "openperm"):
-                    del e
-                    gc.collect()
+            if out not in ("ok", "busy") and kind in ("open", "openperm"):
+                # a constructor that raised after `_open` leaves a half-built record (and its h5py files)
+                # behind until it is collected; the traceback is gone only after the except block
+                gc.collect()
             after = snapshot(d)
             chg = sorted(k for k in before if k in after and before[k][0] != after[k][0])
             is_open = rec is not None and not rec._closed
@@ -323,6 +324,8 @@ def tags_of(ops, recs):
     for op, r in zip(ops, recs):
         if r["out"] != "ok":
             tags.add("err:" + r["out"])
+            if op[0] == "open" and op[3] == "l" and len(op) > 5:
+                tags.add("list-%s-%s-refused" % (op[5], op[2]))
             continue
         k = op[0]
         if k in ("commit",) or (k == "close" and op[1]):
@@ -331,6 +334,8 @@ def tags_of(ops, recs):
             tags.add("%s-after-commit" % k)
         if k == "open":
             tags.add("open-%s-%s" % (op[2], op[3]))
+            if op[3] == "l" and len(op) > 5:
+                tags.add("list-%s-%s" % (op[5], op[2]))
             if op[1] == "m":
                 tags.add("mfrecord")
             if "u rw=1" in r["h"] and op[2] in ("r+", "a") and set(r["before"]) == set(r["after"]):
@@ -442,23 +447,152 @@ def setup_ops(rng, names, cls_choice=None, start=1000):
 
 
 class Sim:
-    """generator-side approximation of the handle (only to bias op choice)."""
+    """generator-side approximation of directory + handle (only to bias op choice and to name files
+    for explicit-list opens; exact as long as no call fails unexpectedly)."""
 
     def __init__(self):
         self.open = False
         self.rw = False
         self.allow = False
-        self.nfiles = 0
-        self.exists = False
         self.name = MAIN
-        self.known = set()
+        self.recs = {}  # record name -> dict(files=[(file name, patch index)], unc=last one uncommitted?)
+        self.h = []  # (file name, patch index) of the handle
+        self.hfull = False  # the handle holds all files of record `name`
+
+    @property
+    def exists(self):
+        return self.name in self.recs
+
+    def created(self, name):
+        self.name = name
+        self.recs[name] = dict(files=[(name + ".ih5", 0)], unc=True)
+        self.h = list(self.recs[name]["files"])
+        self.hfull = True
+        self.open, self.rw, self.allow = True, True, True
+
+    def opened_by_name(self, mode):
+        rec = self.recs[self.name]
+        self.hfull = True
+        self.open = True
+        self.allow = mode != "r"
+        self.rw = False
+        if self.allow:
+            if not rec["unc"]:
+                rec["files"].append(self.next_file(rec["files"]))
+                rec["unc"] = True
+            self.rw = True
+        self.h = list(rec["files"])
+
+    @staticmethod
+    def next_file(files):
+        idx = files[-1][1] + 1
+        base = files[0][0].split(".ih5")[0].split(".p")[0]
+        return ("%s.p%d.ih5" % (base, idx), idx)
+
+    def create(self):
+        if self.open and self.allow and not self.rw and self.h:
+            nf = self.next_file(self.h)
+            self.h.append(nf)
+            if self.hfull:
+                self.recs[self.name]["files"].append(nf)
+                self.recs[self.name]["unc"] = True
+            self.rw = True
+
+    def commit(self):
+        if self.open and self.rw:
+            self.rw = False
+            if self.hfull:
+                self.recs[self.name]["unc"] = False
+
+    def discard(self):
+        if self.open and self.rw and len(self.h) > 1:
+            self.h.pop()
+            self.rw = False
+            if self.hfull:
+                self.recs[self.name]["files"].pop()
+                self.recs[self.name]["unc"] = False
+
+    def close(self, commit):
+        if commit:
+            self.commit()
+        self.open = False
+        self.rw = False
+
+    def merged(self, t):
+        if self.open and not self.rw and self.h and t not in self.recs:
+            self.recs[t] = dict(files=[(t + ".ih5", self.h[-1][1])], unc=False, src=self.name)
+            return True
+        return False
 
 
-def gen_history(rng, n_ops, with_others=True, allow_merge=True):
+LIST_KINDS = [("prefix", 5), ("full", 2), ("gap", 1), ("foreign", 1), ("graft", 1.5), ("tail", 0.7), ("missing", 0.5), ("empty", 0.2)]
+
+
+def gen_file_list(rng, s):
+    """An explicit list of container files for `IH5Record(list, mode)`: (label, file names, valid chain?, complete?).
+
+    prefix  - a strict prefix of the record's file list (the state at an earlier commit)
+    full    - all files
+    gap     - all files but one that is not the last
+    foreign - all files plus a container of another record in the directory
+    graft   - a merged container followed by the patches its source got afterwards
+    tail    - a strict suffix (no base)
+    missing - all files plus a name that does not exist
+    The list is shuffled half of the time (the argument order is irrelevant for the code)."""
+    files = [f for f, _ in s.recs[s.name]["files"]]
+    tot = sum(w for _, w in LIST_KINDS)
+    x = rng.random() * tot
+    for kind, w in LIST_KINDS:
+        x -= w
+        if x <= 0:
+            break
+    valid, complete = False, False
+    if kind == "prefix" and len(files) >= 2:
+        out = files[: rng.randrange(1, len(files))]
+        valid = True
+    elif kind == "gap" and len(files) >= 2:
+        i = rng.randrange(0, len(files) - 1)
+        out = files[:i] + files[i + 1:]
+    elif kind == "foreign" and len(s.recs) >= 2:
+        other = rng.choice([n for n in s.recs if n != s.name])
+        out = files + [rng.choice(s.recs[other]["files"])[0]]
+    elif kind == "graft" and any(r.get("src") for r in s.recs.values()):
+        t = rng.choice([n for n, r in s.recs.items() if r.get("src")])
+        src = s.recs[t]["src"]
+        idx = s.recs[t]["files"][0][1]
+        later = [f for f, i in s.recs.get(src, dict(files=[]))["files"] if i > idx]
+        out = [t + ".ih5"] + (later[: rng.randrange(0, len(later) + 1)] if later else [])
+        valid = True
+    elif kind == "tail" and len(files) >= 2:
+        out = files[rng.randrange(1, len(files)):]
+    elif kind == "missing":
+        out = files + [rng.choice(["%s.p%d.ih5" % (s.name, 40 + rng.randrange(3)), "nope.ih5"])]
+    elif kind == "empty":
+        out = []
+    else:
+        kind, out, valid, complete = "full", list(files), True, True
+    if rng.random() < 0.5:
+        out = list(out)
+        rng.shuffle(out)
+    return kind, out, valid, complete
+
+
+def gen_history(rng, n_ops, with_others=True, allow_merge=True, p_list=0.22):
     ops = []
-    if with_others and rng.random() < 0.7:
-        ops += setup_ops(rng, rng.sample(OTHERS, rng.randrange(1, 4)))
     s = Sim()
+    if with_others and rng.random() < 0.7:
+        names = rng.sample(OTHERS, rng.randrange(1, 4))
+        ops += setup_ops(rng, names)
+        # what setup_ops leaves on disk (for explicit file lists that mix records)
+        j = 0
+        for n in names:
+            files = [(n + ".ih5", 0)]
+            j += 2
+            while ops[j][0] == "commit":
+                files.append(("%s.p%d.ih5" % (n, len(files)), len(files)))
+                j += 3
+            j += 1
+            s.recs[n] = dict(files=files, unc=False)
     k = 1
     merged = []
     targets = ["bar", "foo3", "fo-o", "ba"]
@@ -471,18 +605,39 @@ def gen_history(rng, n_ops, with_others=True, allow_merge=True):
         if not s.open:
             if not s.exists:
                 ops.append(["open", c, rng.choice(["w", "x", "a", "w-", "a"]), "n", s.name])
-                s.open, s.rw, s.allow, s.exists, s.nfiles = True, True, True, True, 1
+                s.created(s.name)
                 continue
             if r < 0.06 and merged:
                 # continue on a merged record
                 s.name = rng.choice(merged)
+            if rng.random() < p_list:
+                # explicit file list: older snapshots, permutations, incoherent selections
+                label, fl, valid, complete = gen_file_list(rng, s)
+                mode = rng.choice(["r", "r+", "a", "r+", "a", "r"] if rng.random() < 0.93 else ["x", "w-"])
+                ops.append(["open", c, mode, "l", fl, label])
+                if mode in ("x", "w-") or not valid:
+                    continue
+                if complete:
+                    s.opened_by_name(mode)
+                elif mode == "r":
+                    by = {f: i for r_ in s.recs.values() for f, i in r_["files"]}
+                    s.h = sorted(((f, by[f]) for f in fl), key=lambda fi: fi[1])
+                    s.hfull = False
+                    s.open, s.allow, s.rw = True, False, False
+                elif label == "graft":
+                    # a coherent chain under a new base name: the patch gets a fresh name (unless taken)
+                    by = {f: i for r_ in s.recs.values() for f, i in r_["files"]}
+                    s.h = sorted(((f, by[f]) for f in fl), key=lambda fi: fi[1])
+                    s.hfull = False
+                    s.open, s.allow, s.rw = True, True, False
+                    s.create()
+                # a strict prefix in r+/a: the next patch name is taken -> the open is refused
+                continue
             mode = rng.choice(["r", "r+", "a", "r+", "a", "x", "w-"] if r < 0.9 else ["r", "x"])
             ops.append(["open", c, mode, "n", s.name])
             if mode in ("x", "w-"):
                 continue
-            s.open = True
-            s.allow = mode != "r"
-            s.rw = s.allow
+            s.opened_by_name(mode)
             continue
         # handle is open
         choices = []
@@ -505,29 +660,23 @@ def gen_history(rng, n_ops, with_others=True, allow_merge=True):
             ops.append(["write", k]); k += 1
         elif name == "commit":
             ops.append(["commit"])
-            if s.rw:
-                s.rw = False
+            s.commit()
         elif name == "discard":
             ops.append(["discard"])
-            if s.rw and s.nfiles > 1:
-                s.rw = False
-                s.nfiles -= 1
+            s.discard()
         elif name == "create":
             ops.append(["create"])
-            if s.allow and not s.rw:
-                s.rw = True
-                s.nfiles += 1
+            s.create()
         elif name == "read":
             ops.append(["read"])
         elif name == "merge":
             t = rng.choice(targets + [s.name] + OTHERS[:1]) if rng.random() < 0.25 else rng.choice([t for t in targets if t not in merged] or targets)
             ops.append(["merge", t])
-            if not s.rw and t in targets and t not in merged:
+            if t in targets and t not in merged and s.merged(t):
                 merged.append(t)
         elif name in ("close1", "close0"):
             ops.append(["close", 1 if name == "close1" else 0])
-            s.open = False
-            s.rw = False
+            s.close(name == "close1")
             if rng.random() < 0.15:
                 # operations on a closed handle
                 ops.append([rng.choice(["read", "commit", "create", "discard"])] if rng.random() < 0.8 else ["write", 900 + k])
@@ -535,12 +684,17 @@ def gen_history(rng, n_ops, with_others=True, allow_merge=True):
 
 
 START = [["open", None, "x", "n", MAIN], ["write", 1], ["commit"]]
-ALPHABET = ["create", "write", "commit", "discard", "reopen-r", "reopen-r+", "merge"]
+ALPHABET = ["create", "write", "commit", "discard", "reopen-r", "reopen-r+", "merge", "reopen-prefix"]
 
 
 def expand(seq, c):
+    """`reopen-prefix`: close, then open the record's file list without its newest container (the state
+    at the previous commit) for patching, by explicit list; with a single container: the full list."""
     ops = [list(o) for o in START]
     ops[0][1] = c
+    s = Sim()
+    s.created(MAIN)
+    s.commit()
     k = 10
     nmerge = 0
     for a in seq:
@@ -548,10 +702,17 @@ def expand(seq, c):
             ops.append(["write", k]); k += 1
         elif a in ("create", "commit", "discard"):
             ops.append([a])
-        elif a == "reopen-r":
-            ops += [["close", 1], ["open", c, "r", "n", MAIN], ["read"]]
-        elif a == "reopen-r+":
-            ops += [["close", 1], ["open", c, "r+", "n", MAIN], ["read"]]
+            getattr(s, a)()
+        elif a in ("reopen-r", "reopen-r+"):
+            ops += [["close", 1], ["open", c, a[7:], "n", MAIN], ["read"]]
+            s.close(True)
+            s.opened_by_name(a[7:])
+        elif a == "reopen-prefix":
+            s.close(True)
+            files = [f for f, _ in s.recs[MAIN]["files"]]
+            ops += [["close", 1], ["open", c, "r+", "l", files[:-1] or files, "prefix" if len(files) > 1 else "full"], ["read"]]
+            if len(files) == 1:
+                s.opened_by_name("r+")
         elif a == "merge":
             ops.append(["merge", "bar%d" % nmerge]); nmerge += 1
     ops += [["read"], ["close", 1], ["open", c, "r", "n", MAIN], ["read"], ["close", 1]]
@@ -574,16 +735,19 @@ def gen_cases(ctx):
             for seq in itertools.product(ALPHABET, repeat=l):
                 for c in "pm":
                     cases.append(dict(kind="seq", ops=expand(seq, c)))
-        ctx.exhaustive_spaces.append("all call sequences of length <= 4 over {create_patch, write, commit_patch, discard_patch, close+reopen(r), close+reopen(r+), merge_files} after a committed base, both record classes")
+        ctx.exhaustive_spaces.append("all call sequences of length <= 4 over {create_patch, write, commit_patch, discard_patch, close+reopen(r), close+reopen(r+), close+reopen(file list without the newest container, r+), merge_files} after a committed base, both record classes")
     return cases
 
 
 def run(ctx):
     ctx.rule = ("cases: (hist) random API histories on real IH5Record/IH5MFRecord objects in one temporary directory that also holds "
                 "prefix-related records (fo, foo2, foo-bar): open r/r+/a/x/w- (w only on absent names), write, read, create_patch, commit_patch, "
-                "discard_patch, close(commit yes/no), reopen, merge_files into fresh/existing/own names, calls on closed handles; "
+                "discard_patch, close(commit yes/no), reopen by name or by an explicit file list (strict prefixes = older commit states, permutations, "
+                "selections with gaps / without base / with foreign or missing files, merged container + later patches of its source) in every "
+                "mode, merge_files into fresh/existing/own names, calls on closed handles; "
                 "(seq) short call sequences after a committed base. After every call every file is hashed. Non-trivial = tagged: "
-                "write/create/discard/merge after a commit, continuing an uncommitted container, merge, discard, close without commit, "
+                "write/create/discard/merge after a commit, continuing an uncommitted container, merge, discard, close without commit, each kind of "
+                "explicit file list per mode (accepted / refused), "
                 "IH5MFRecord, mixed classes, each error class.")
     ctx.assumptions += [
         "sha256 of a container payload is modelled as the payload itself (collision-free digest)",
